@@ -1,0 +1,57 @@
+// \file src/verif_macros.rs
+//! Observation-hook macros; they expand to nothing unless the crate is
+//! built with `--cfg bigdecimal_verif` (see src/verif_hooks.rs)
+
+#[cfg(bigdecimal_verif)]
+macro_rules! verif_probe {
+    ($id:ident) => {
+        $crate::verif_hooks::hit($crate::verif_hooks::Probe::$id)
+    };
+}
+
+#[cfg(not(bigdecimal_verif))]
+macro_rules! verif_probe {
+    ($id:ident) => {};
+}
+
+/// record a probe only when the condition holds (the condition is not evaluated without the flag)
+#[cfg(bigdecimal_verif)]
+macro_rules! verif_probe_if {
+    ($cond:expr, $id:ident) => {
+        if $cond {
+            $crate::verif_hooks::hit($crate::verif_hooks::Probe::$id)
+        }
+    };
+}
+
+#[cfg(not(bigdecimal_verif))]
+macro_rules! verif_probe_if {
+    ($cond:expr, $id:ident) => {};
+}
+
+/// declare the iteration counter of a guarded loop
+#[cfg(bigdecimal_verif)]
+macro_rules! verif_loop_guard {
+    ($counter:ident) => {
+        let mut $counter: u64 = 0;
+    };
+}
+
+#[cfg(not(bigdecimal_verif))]
+macro_rules! verif_loop_guard {
+    ($counter:ident) => {};
+}
+
+/// count one iteration of a guarded loop; panics above `cap` iterations
+#[cfg(bigdecimal_verif)]
+macro_rules! verif_loop_tick {
+    ($counter:ident, $which:ident, $cap:expr) => {
+        $counter += 1;
+        $crate::verif_hooks::loop_tick($crate::verif_hooks::Loop::$which, $counter, ($cap) as u64);
+    };
+}
+
+#[cfg(not(bigdecimal_verif))]
+macro_rules! verif_loop_tick {
+    ($counter:ident, $which:ident, $cap:expr) => {};
+}
